@@ -53,6 +53,12 @@ structure MSt where
   /-- sends completed in the current step: checked at the end of the step, when the step's own
       cache dump (the metadata the routing may have used) is known -/
   pendingChecks : List (Nat × List Int × List Nat) := []
+  /-- metadata load operation ↦ its broker-unaware request -/
+  loadUn : List (Nat × Nat) := []
+  /-- operations that were cancelled, or started when the client was closed (their failure is not the
+      exhaustion of all servers) -/
+  excused : List Nat := []
+  closed : Bool := false
   fails : List String := []
   deriving Repr
 
@@ -133,6 +139,9 @@ def stepItem (cfg : Cfg) (s : MSt) : TItem → MSt
     match e with
     | .send o keys group _ expect =>
       { s with ops := s.ops ++ [{ o := o, keys := keys, group := group, expect := expect, hist := [s.lastDump] }] }
+    | .cancel o => { s with excused := s.excused ++ [o] }
+    | .close _ => { s with closed := true, excused := s.excused ++ s.loadUn.map (·.1) }
+    | .load o _ => if s.closed then { s with excused := s.excused ++ [o] } else s
     | .conn b v => { s with bcConn := if v then s.bcConn ++ [b] else s.bcConn.filter (fun x => !(x == b)) }
     | .fire k r =>
       (match (s.reqs.filter (fun q => q.k == k)).head? with
@@ -156,7 +165,17 @@ def stepItem (cfg : Cfg) (s : MSt) : TItem → MSt
     | .bootConnect j h p => { s with boots := s.boots ++ [(j, h, p)] }
     | .result op r =>
       (match (s.ops.filter (fun x => x.o == op && !x.done)).head? with
-       | .none => s
+       | .none =>
+         -- a metadata load: "unavailable" only after every known broker and every bootstrap host was tried
+         (match r, get? op s.loadUn with
+          | .fail .unavailable, some u =>
+            if s.excused.contains op then s else
+            (match (s.uns.filter (fun x => x.u == u)).head? with
+             | .none => if cfg.bootHosts.isEmpty then s else fail s s!"op {op}: unavailable although no server was tried"
+             | some x =>
+               if cfg.bootHosts.all (fun hp => x.boots.contains hp) then s
+               else fail s s!"op {op}: unavailable before every bootstrap host was tried")
+          | _, _ => s)
        | some x =>
          let s1 := { s with ops := s.ops.map (fun y => if y.o == op then { y with done := true } else y) }
          match r with
@@ -177,6 +196,7 @@ def stepItem (cfg : Cfg) (s : MSt) : TItem → MSt
       | Option.none => []) }
     { s1 with uns := s1.uns.map (fun (x : MUn) => match x.known with | Option.none => { x with known := some (c.brokers.map (·.1)) } | some _ => x) }
   | .attr k o idxs => setReq s k (fun q => { q with op := some o, idxs := idxs })
+  | .uop u o => { s with loadUn := s.loadUn ++ [(o, u)] }
   | .uattr k u =>
     let (s1, x) := getUn s u
     (match (s1.reqs.filter (fun q => q.k == k)).head? with
